@@ -651,6 +651,12 @@ WITNESS = {
     # two triangles with surface ids 0 and 2^31-2: ref_export_bin_ugrid sweeps the id range four times
     'sweep': _witness('lb8.ugrid', NODES4, dict(EMPTY, tri=[[0, 1, 2, 0], [1, 2, 3, 2 ** 31 - 2]])),
 }
+# 4 vertices, one tet, but 2^31-1 tets declared: `size_per * chunk` overflows `int` in ref_part_bin_ugrid_cell
+WITNESS['count_int'] = put(bytes.fromhex(_witness('lb8.ugrid', NODES4, dict(EMPTY, tet=[[0, 1, 2, 3]]))), 12, '<', 4,
+                           2 ** 31 - 1).hex()
+# 64-bit file declaring 2^63-1 vertices: `nnode + nproc` overflows `long` in ref_part_first (ref_part_node)
+WITNESS['count_long'] = put(bytes.fromhex(_witness('lb8l.ugrid', NODES4, dict(EMPTY, tet=[[0, 1, 2, 3]]))), 0, '<', 8,
+                            2 ** 63 - 1).hex()
 
 
 def gen_c20_index(rng, tier):
@@ -669,6 +675,18 @@ def gen_c20_index(rng, tier):
     return ops[:80]
 
 
+def gen_c20_count(rng, tier):
+    """inputs whose declared counts overflow the parallel reader's `int` / `long` arithmetic before any byte is checked"""
+    ops = ['robust_part lb8.ugrid ' + WITNESS['count_int'], 'robust_part lb8l.ugrid ' + WITNESS['count_long']]
+    if tier == 'quick':
+        return ops
+    items = all_mutants(rng, tier)
+    for (suf, lab, d), (ser, par) in zip(items, classify(items)):
+        if par == 'count':
+            ops.append('robust_part %s %s' % (suf, d.hex() or '-'))
+    return ops[:40]
+
+
 def gen_c20_sweep(rng, tier):
     """a valid small file whose surface ids are far apart: the serial writer's id sweep"""
     return ['robust_translate lb8.ugrid ' + WITNESS['sweep']]
@@ -681,6 +699,9 @@ C20_ROBUST = Stream('c20_ugrid_robust', 'h_ugrid', 'ugrid', gen_c20_robust, orac
 C20_INDEX = Stream('c20_ugrid_index', 'h_ugrid', 'ugrid', gen_c20_index, oracle=oracle_returns, whitebox=['ref_import'],
                    nontrivial=lambda op, out: True, session='\x00none', harness_args=['--limit', '10'],
                    site='ugrid-vertex-index-unchecked')
+C20_COUNT = Stream('c20_ugrid_count', 'h_ugrid', 'ugrid', gen_c20_count, oracle=oracle_returns, whitebox=['ref_import'],
+                   nontrivial=lambda op, out: True, session='\x00none', harness_args=['--limit', '10'],
+                   site='ugrid-part-count-overflow')
 C20_SWEEP = Stream('c20_ugrid_sweep', 'h_ugrid', 'ugrid', gen_c20_sweep, oracle=oracle_returns, whitebox=['ref_import'],
                    nontrivial=lambda op, out: True, session='\x00none', harness_args=['--limit', '10'],
                    site='ugrid-export-faceid-range-sweep')
